@@ -365,6 +365,45 @@ def alg_check(binpath, ptype, mode, sd, max_tw=3):
     return info
 
 
+def sched_check(binpath, ptype, sd, runs):
+    """C14: logs of real threads writing through disjoint views, validated against Sched.tla."""
+    d = os.path.join(WORK, f"sv_{ptype}")
+    shutil.rmtree(d, ignore_errors=True)
+    os.makedirs(d)
+    for f in os.listdir(SPEC):
+        if f.endswith(".tla"):
+            shutil.copy(os.path.join(SPEC, f), d)
+    open(os.path.join(d, "SV.tla"), "w").write('---- MODULE SV ----\nEXTENDS Sched\nc_R == <<<<"a">>, <<"b">>>>\n====\n')
+    open(os.path.join(d, "SV.cfg"), "w").write("CONSTANTS Regions <- c_R\nINIT InitT\nNEXT NextT\nCONSTRAINT TrackT\nPOSTCONDITION AcceptedT\nCHECK_DEADLOCK FALSE\n")
+    tf = os.path.join(d, "sched.ndjson")
+    p = subprocess.run([binpath, "sched", "--type", ptype, "--seed", str(sd), "--runs", str(runs), "--trace", tf],
+                       capture_output=True, text=True, timeout=900)
+    if p.returncode != 0:
+        raise ToolError(f"sched driver failed: {p.stderr[-1500:]}")
+    info = json.loads(p.stdout.strip().split("\n")[-1])
+    env = dict(os.environ, TRACE=tf)
+    env.pop("JAVA_TOOL_OPTIONS", None)
+    cmd = TRACE_JAVA + ["-metadir", os.path.join(d, "md"), "-cleanup", "-noGenerateSpecTE", "-config", "SV.cfg", "SV.tla"]
+    out = subprocess.run(cmd, cwd=d, env=env, capture_output=True, text=True, timeout=900).stdout
+    info["accepted"] = "No error has been found" in out
+    info["lines_ok"] = info["lines"]
+    if not info["accepted"]:
+        m = re.search(r'TRACE-REJECTED-AT-LINE", (\d+), "OF", (\d+)', out)
+        if not m:
+            raise ToolError("Sched validation failed without a verdict:\n" + out[-2000:])
+        k = int(m.group(1))
+        info["lines_ok"] = k - 1
+        with open(tf) as f:
+            for i, ln in enumerate(f, 1):
+                if i == k:
+                    info["rejected_line"] = json.loads(ln)
+    with open(tf) as f:
+        f.readline()
+        info["sample"] = json.loads(f.readline())
+    shutil.rmtree(d, ignore_errors=True)
+    return info
+
+
 def alg_laws(max_tw=3):
     """TLC checks the laws of Bits.tla exhaustively for all widths up to max_tw."""
     d = os.path.join(WORK, "av_laws")
